@@ -9,4 +9,6 @@ for p in $prop "$@"; do
   (cd /verif && python3 check.py $p quick 2>&1 | grep -v "^WARNING" | cut -c1-330 | head -5)
 done
 git -C /repo checkout -- .
+# evidence written from a mutated tree is not evidence: restore the committed files
+git -C /verif checkout -- evidence/ 2>/dev/null
 git -C /repo status --short | head -3
